@@ -152,7 +152,9 @@ class PolyphaseFilterbank(object):
             # Cache last section of data, which is excluded in PFB step
             if self.cache is not None:
                 x = xp.concatenate([self.cache, x])
-            self.cache = x[-self.num_taps*self.num_branches:]
+            # Keep a copy: on the first call x is the caller's own array, which
+            # the caller may refill before passing the next chunk
+            self.cache = xp.copy(x[-self.num_taps*self.num_branches:])
         
         x = pfb_frontend(x, self.window, self.num_taps, self.num_branches)
         X_pfb = xp.fft.fft(x, 
